@@ -202,7 +202,11 @@ func HarnessC06KeywordNames() {
 	case 2:
 		v = []interface{}{map[string]interface{}{"type": "array"}}
 	default:
-		v = "x"
+		if verifBool() {
+			v = map[string]interface{}{"type": "array"}
+		} else {
+			v = "x"
+		}
 	}
 	d := map[string]interface{}{name: v}
 	var opts []Option
@@ -214,5 +218,14 @@ func HarnessC06KeywordNames() {
 	}
 	res := NewSchemaValidator(&s, nil, root, &verifRegistry{}, opts...).Validate(d)
 	verifAssert(res != nil, "a-result-is-returned")
+	if verifChecking("C03") {
+		// the swagger pre-check "an array declares items" does not depend on what the member is called
+		withCheck := NewSchemaValidator(&s, nil, root, &verifRegistry{}, SwaggerSchema(true)).Validate(d)
+		if m, isObj := v.(map[string]interface{}); isObj && m["type"] == "array" && inner.Type.Contains("object") {
+			if _, hasItems := m["items"]; !hasItems {
+				verifAssert(!withCheck.IsValid(), "array-without-items-is-reported-whatever-the-member-name")
+			}
+		}
+	}
 	verifReach("end")
 }
